@@ -26,6 +26,66 @@
 #include "java/javacode.h"
 #include "java/javaobj.h"
 
+#ifdef ALDOR_VERIF
+/*
+ * H3 driver events (see verifhook.h): every output stream that emit.c opens is
+ * registered with its kind; the fclose calls of this file go through
+ * verifFclose so that the value fclose really returned (and the stream's error
+ * flag just before) is logged.  With the guard off nothing here exists.
+ */
+#include "verifhook.h"
+extern int	verifPhFileNo;		/* phase.c */
+#define VERIF_NOUT 8
+static struct { FILE *f; const char *kind; int file; } verifOutv[VERIF_NOUT];
+
+static void
+verifOutOpened(FILE *f, const char *kind)
+{
+	int i;
+	for (i = 0; i < VERIF_NOUT; i++)
+		if (!verifOutv[i].f) {
+			verifOutv[i].f    = f;
+			verifOutv[i].kind = kind;
+			verifOutv[i].file = verifPhFileNo;
+			break;
+		}
+	VERIF_EVENT(("{\"ev\":\"OutOpen\",\"file\":%d,\"kind\":\"%s\",\"ok\":true}",
+		     verifPhFileNo, kind));
+}
+
+static void
+verifOutClosed(FILE *f, int rc, int werr)
+{
+	int i;
+	for (i = 0; i < VERIF_NOUT; i++)
+		if (verifOutv[i].f == f) {
+			VERIF_EVENT(("{\"ev\":\"OutClose\",\"file\":%d,\"kind\":\"%s\",\"rc\":%d,\"werr\":%d}",
+				     verifOutv[i].file, verifOutv[i].kind, rc, werr));
+			verifOutv[i].f = 0;
+			return;
+		}
+}
+
+static int
+verifFclose(FILE *f)
+{
+	int werr = ferror(f) ? 1 : 0;
+	int rc   = fclose(f);
+	verifOutClosed(f, rc, werr);
+	return rc;
+}
+#define fclose(f)	verifFclose(f)
+
+static const char *
+verifKindOf(EmitInfo finfo, int ftno)
+{
+	if (ftno == FTYPENO_AXLMAINC) return "main";
+	if (finfo && finfo->isAXLmain && ftno == FTYPENO_C) return "main";
+	if (ftno == FTYPENO_LISP) return "lsp";
+	return ftypeString(ftno);
+}
+#endif /* ALDOR_VERIF */
+
 /****************************************************************************
  *
  * :: Controlling options
@@ -800,6 +860,9 @@ emitTheIncluded(EmitInfo finfo, SrcLineList sll)
 	fn = emitFileName(finfo, FTYPENO_INCLUDED);
 	emitInfoInUse(finfo, FTYPENO_INCLUDED) = true;
 	fout = fileWrOpen(fn);
+#ifdef ALDOR_VERIF
+	verifOutOpened(fout, "ai");
+#endif
 	inclWrite(fout, sll);
 	fclose(fout);
 	emitInfoInUse(finfo, FTYPENO_INCLUDED) = false;
@@ -818,6 +881,9 @@ emitTheAbSyn(EmitInfo finfo, AbSyn absyn)
 	fn = emitFileName(finfo, FTYPENO_ABSYN);
 	emitInfoInUse(finfo, FTYPENO_ABSYN) = true;
 	fout = fileWrOpen(fn);
+#ifdef ALDOR_VERIF
+	verifOutOpened(fout, "ap");
+#endif
 	abWrSExpr(fout, absyn, emitSxIoMode);
 	fclose(fout);
 	emitInfoInUse(finfo, FTYPENO_ABSYN) = false;
@@ -836,6 +902,9 @@ emitTheOldAbSyn(EmitInfo finfo, AbSyn absyn)
 	fn = emitFileName(finfo, FTYPENO_OLDABSYN);
 	emitInfoInUse(finfo, FTYPENO_OLDABSYN) = true;
 	fout = fileWrOpen(fn);
+#ifdef ALDOR_VERIF
+	verifOutOpened(fout, "ax");
+#endif
 	abWrSExpr(fout, absyn, emitSxIoMode);
 	fclose(fout);
 	emitInfoInUse(finfo, FTYPENO_OLDABSYN) = false;
@@ -854,6 +923,9 @@ emitTheIntermed(EmitInfo finfo, SymeList sl, Foam foam, AbSyn macs)
 	fn  = emitFileName(finfo, FTYPENO_INTERMED);
 	emitInfoInUse(finfo, FTYPENO_INTERMED) = true;
 	lib = libWrite(fn);
+#ifdef ALDOR_VERIF
+	VERIF_EVENT(("{\"ev\":\"OutOpen\",\"file\":%d,\"kind\":\"ao\",\"ok\":true}", verifPhFileNo));
+#endif
 	libPutSymes(lib, sl, foam);
 	libPutFoamSymes(lib, foam);
 	libPutMacros(lib, macs);
@@ -902,6 +974,9 @@ emitTheSymbolExpr(EmitInfo finfo, SymeList symes, AbSyn macs)
 	fn = emitFileName(finfo, FTYPENO_SYMEEXPR);
 	emitInfoInUse(finfo, FTYPENO_SYMEEXPR) = true;
 	fout = fileWrOpen(fn);
+#ifdef ALDOR_VERIF
+	verifOutOpened(fout, "asy");
+#endif
 	symeListWrSExpr(fout, fnameName(emitSrcFile(finfo)),
 			symes, SXRW_Default);
 	abWrSExpr(fout, macs, SXRW_Default);
@@ -957,6 +1032,9 @@ emitTheAnnotatedAbSyn(EmitInfo finfo, SExpr whole)
 	fn = emitFileName(finfo, FTYPENO_ANNABS);
 	emitInfoInUse(finfo, FTYPENO_ANNABS) = true;
 	fout = fileWrOpen(fn);
+#ifdef ALDOR_VERIF
+	verifOutOpened(fout, "abn");
+#endif
 	sxiWrite(fout, whole, SXRW_Default);
 
 	fclose(fout);
@@ -977,6 +1055,9 @@ emitTheFoamExpr(EmitInfo finfo, Foam foam)
 	fn   = emitFileName(finfo, FTYPENO_FOAMEXPR);
 	emitInfoInUse(finfo, FTYPENO_FOAMEXPR) = true;
 	fout = fileWrOpen(fn);
+#ifdef ALDOR_VERIF
+	verifOutOpened(fout, "fm");
+#endif
 	foamWrSExpr(fout, foam, emitSxIoMode);
 	fclose(fout);
 	emitInfoInUse(finfo, FTYPENO_FOAMEXPR) = false;
@@ -1007,6 +1088,9 @@ emitTheLisp(EmitInfo finfo, SExpr lispCode)
 
 	emitInfoInUse(finfo, FTYPENO_LISP) = true;
 	fout	 = fileWrOpen(fn);
+#ifdef ALDOR_VERIF
+	verifOutOpened(fout, "lsp");
+#endif
 
 	fnstring = fnameUnparseStaticWithout(srcfn);
 	fprintf(fout, "%s", emitLispHdFmt1);
@@ -1052,6 +1136,9 @@ emitTheC(EmitInfo finfo, CCodeList cco)
 		emitFileRemove(finfo, FTYPENO_H);
 		emitInfoInUse(finfo, FTYPENO_H) = true;
 		hout = fileWrOpen(hfn);
+#ifdef ALDOR_VERIF
+		verifOutOpened(hout, "h");
+#endif
 
 		fnstring = fnameUnparseStaticWithout(srcfn);
 		fprintf(hout, emitCHdFmt1, 0);
@@ -1095,6 +1182,9 @@ emitTheC(EmitInfo finfo, CCodeList cco)
 					finfo->flist = listCons(FileName)(fname, finfo->flist);
 					fout  = fileWrOpen(fname);
 				}
+#ifdef ALDOR_VERIF
+				verifOutOpened(fout, verifKindOf(finfo, FTYPENO_C));
+#endif
 				fnstring = fnameUnparseStaticWithout(srcfn);
 				fprintf(fout, emitCHdFmt1, 0);
 				if (!emitInfoIsAXLmain(finfo))
@@ -1204,6 +1294,9 @@ emitOneJavaFile(EmitInfo finfo, JavaCode javaFile)
 	fn   = emitJavaFileName(finfo, javaFile);
 
 	fout = fileWrOpen(fn);
+#ifdef ALDOR_VERIF
+	verifOutOpened(fout, "java");
+#endif
 	ostream = ostreamNewFrFile(fout);
 	ostreamPrintf(ostream, emitJavaHeader, fnameUnparseStaticWithout(srcfn));
 
@@ -1264,6 +1357,9 @@ emitLink(int numFiles, EmitInfo * finfov)
 		return;
 	}
 
+#ifdef ALDOR_VERIF
+	VERIF_EVENT(("{\"ev\":\"Link\"}"));
+#endif
 	for (i = 0; i < numFiles; i++)
 		tmpFiles += listLength(FileName)(finfov[i]->flist);
 
@@ -1319,6 +1415,9 @@ emitRun(int argc1, String *argv1)
 
 	/* If emitDoRun, we are sure that emitExecFinfo != NULL. */
 	emitExecName = emitFileName(emitExecFinfo, FTYPENO_EXEC);
+#ifdef ALDOR_VERIF
+	VERIF_EVENT(("{\"ev\":\"Run\"}"));
+#endif
 
 	ccGoProgram(emitExecName, argc1, argv1);
 
@@ -1336,7 +1435,13 @@ emitInterp(int argc1, String *argv1)
 	/* If emitDoInterp, we are sure that emitExecFinfo != NULL. */
 	emitExecName = emitFileName(emitExecFinfo, FTYPENO_INTERMED);
 
+#ifdef ALDOR_VERIF
+	VERIF_EVENT(("{\"ev\":\"Interp\"}"));
+#endif
 	result = fintFile(emitExecName);
+#ifdef ALDOR_VERIF
+	VERIF_EVENT(("{\"ev\":\"InterpEnd\",\"ok\":%s}", result ? "true" : "false"));
+#endif
 
 	if (!emitKeep[FTYPENO_INTERMED])
 		fileRemove(emitExecName);
@@ -1361,6 +1466,9 @@ emitCleanup(int numFiles, EmitInfo *finfov)
 	String		name;
 	int		i, j;
 
+#ifdef ALDOR_VERIF
+	VERIF_EVENT(("{\"ev\":\"CleanupStart\",\"nfiles\":%d}", finfov ? numFiles : 0));
+#endif
 	if (!finfov) return;
 
 	/* For each of the input files */
@@ -1392,12 +1500,20 @@ emitCleanup(int numFiles, EmitInfo *finfov)
 			if (emitInfoInUse(finfo, j) && fileIsThere(fn)) {
 				comsgWarning(NULL, ALDOR_W_RemovingFile, name);
 				fileRemove(fn);
+#ifdef ALDOR_VERIF
+				VERIF_EVENT(("{\"ev\":\"Cleanup\",\"file\":%d,\"kind\":\"%s\",\"inuse\":1}",
+					     i + 1, verifKindOf(finfo, j)));
+#endif
 			}
 			else if (fileIsThere(fn)) {
 				if (!emitKeep[j]) {
 					/* We might not want a warning here. */
 					comsgWarning(NULL,ALDOR_W_RemovingFile,name);
 					fileRemove(fn);
+#ifdef ALDOR_VERIF
+					VERIF_EVENT(("{\"ev\":\"Cleanup\",\"file\":%d,\"kind\":\"%s\",\"inuse\":0}",
+						     i + 1, verifKindOf(finfo, j)));
+#endif
 				}
 				else
 					emitFileRename(finfo, j);
